@@ -2,6 +2,9 @@ mod be;
 mod exec;
 mod exec2;
 mod exec3;
+mod exec4;
+mod exec5;
+mod gen_tok;
 mod gen_claims;
 mod facts;
 mod gen_text;
@@ -38,6 +41,9 @@ fn main() {
                 "c15" => gen_text::gen_c15(&mut out, seed, thorough),
                 "c09" => gen_text::gen_c09(&mut out, seed, thorough),
                 "c10" => gen_text::gen_c10(&mut out, seed, thorough),
+                "c01" => gen_tok::gen_c01(&mut out, seed, thorough),
+                "c02" => gen_tok::gen_c02(&mut out, seed, thorough),
+                "c03" => gen_tok::gen_c03(&mut out, seed, thorough),
                 "c11" => gen_claims::gen_c11(&mut out, seed, thorough),
                 "c12pipe" => gen_claims::gen_c12pipe(&mut out, seed, thorough),
                 "c14" => gen_claims::gen_c14(&mut out, seed, thorough),
